@@ -8,14 +8,15 @@ from vlib.core import rng_for
 ID = "C19"
 LEVEL = "exploration"
 RULE = (
-    "case = block of (agent, environment) sequences: n_actions 1-8, alpha in {-1 (sample average), 0.01..1}, eps in "
+    "case = block of (agent, environment) sequences: n_actions 1-8, alpha in {-1 / -1.0 (sample average), 0 (frozen), 0.01..1}, eps in "
     "{0, 0.1, 0.5, 1}, initial values, seed; 1-200 steps of rewards produced by feeding random / improving / "
-    "non-improving / adversarial best-loss observations through the real MABCalibrationEnv. After every learn() the "
+    "non-improving / adversarial best-loss observations through the real MABCalibrationEnv, with env.reset() interleaved (a new "
+    "session) and special seeds 0 / 1 / 2^32-1. After every learn() the "
     "agent's Q and counts are compared with a plain-float reference; every policy() and get_reward() result is judged. "
     "Non-trivial = at least 2 actions visited at least twice each; distinct by sequence hash."
 )
 ASSUMPTIONS = ["the one undefined case of the rule - an improvement over a reference of exactly 0.0 (division by zero) - is not generated; zero and negative references with any other observation are"]
-REQUIRED_COUNTERS = {"zero_reference_steps": 200, "negative_reference_steps": 200, "twins_seeded_through_setter": 100, "learn_steps": 2000, "policy_calls": 2000, "reward_calls": 2000, "improving_steps": 200, "twin_pairs": 50}
+REQUIRED_COUNTERS = {"alpha_zero_sequences": 50, "special_seed_sequences": 80, "env_resets_between_observations": 500, "zero_reference_steps": 200, "negative_reference_steps": 200, "twins_seeded_through_setter": 100, "learn_steps": 2000, "policy_calls": 2000, "reward_calls": 2000, "improving_steps": 200, "twin_pairs": 50}
 SHARDS = {"quick": 8, "thorough": 16}
 
 
@@ -30,12 +31,19 @@ def one_sequence(rng, out):
 
     c = out["counters"]
     n = int(rng.integers(1, 9))
-    alpha = float(rng.choice([-1, -1, 0.01, 0.1, 0.5, 1.0, float(rng.uniform(0.01, 1))]))
+    alpha = float(rng.choice([-1, -1, 0.0, 0.01, 0.1, 0.5, 1.0, float(rng.uniform(0.01, 1))]))   # 0.0 = frozen estimates
+    if alpha == -1 and rng.random() < 0.5:
+        alpha = -1                      # the sentinel as the integer literal of the documentation (else as the float -1.0)
+    if alpha == 0.0:
+        c["alpha_zero_sequences"] = c.get("alpha_zero_sequences", 0) + 1
     eps = float(rng.choice([0.0, 0.0, 0.1, 0.5, 1.0]))
     init = float(rng.choice([0.0, 0.0, 1.0, -0.5, float(rng.normal())]))
     if rng.random() < 0.25:
         init = int(rng.integers(0, 3))  # an integer is a legitimate initial value
     seed = int(rng.integers(0, 2**31))
+    if rng.random() < 0.15:
+        seed = int(rng.choice([0, 0, 1, 2**32 - 1]))   # 0 is the most popular seed - and falsy
+        c["special_seed_sequences"] = c.get("special_seed_sequences", 0) + 1
     steps = int(rng.integers(1, 201))
     agent = MABEpsilonGreedy(n, alpha, eps, initial_values=init, random_state=seed)
     # the twin receives the same seed the way a scheduler hands it over: through the random_state setter, after construction
@@ -73,6 +81,12 @@ def one_sequence(rng, out):
             return bad(f"two agents with seed {seed} fed equal rewards chose {a} and {a2} at step {t}")
         if eps == 0.0 and not (Q[a] == max(Q)):
             return bad(f"eps=0 but chosen action {a} has estimate {Q[a]!r} < max {max(Q)!r}")
+        if rng.random() < 0.05:
+            # a new session starts (RLScheduler._train resets the environment at the start of every session): the reference best stays
+            env.reset()
+            c["env_resets_between_observations"] = c.get("env_resets_between_observations", 0) + 1
+            if env._curr_best_loss != ref_best:
+                return bad(f"after env.reset() the reference best is {env._curr_best_loss!r}, it was {ref_best!r}")
         # observation
         if mode == "zero_reference":
             new = float(rng.choice([0.0, float(rng.uniform(0.0, 3.0))]))
